@@ -27,6 +27,9 @@ ASSUMPTIONS = [
     " double rounding stays far below that",
     "a result at hour 24 is legal only when every component of d is zero "
     "(p is returned unchanged)",
+    "field ranges are strict also for decimal cases (second == 60.0 is a "
+    "violation): on the unchanged tree no such value was produced in > 3e6 "
+    "generated cases; see DESIGN section 8",
 ]
 
 
@@ -84,29 +87,6 @@ def check_case(case):
                 exp = ip - length
             n = M.Native(cm, q, allow24=M.dkw_all_zero(dkw))
             problems = list(n.problems)
-            if not int_class:
-                # float boundary: a field may sit ON its upper bound only when
-                # the exact result lies within 1e-9 s below a whole minute
-                # (x - tiny + 60.0 rounds to 60.0 in binary floats); anything
-                # further from the boundary must have been carried
-                local = exp + M.kw_tz(kw)
-                to_minute = (-local) % 60
-                near = to_minute <= Fraction(1, 10 ** 9) or \
-                    60 - to_minute <= Fraction(1, 10 ** 9)
-                kept = []
-                for pr in problems:
-                    if not near:
-                        kept.append(pr)
-                        continue
-                    if ((pr.startswith("second") and n.s is not None and
-                         abs(n.s - 60) <= 1e-6) or
-                        (pr.startswith("minute") and n.m is not None and
-                         abs(n.m - 60) * 60 <= 1e-6) or
-                        (pr.startswith("hour") and abs(n.h - 24) * 3600 <= 1e-6)):
-                        classes.append("float_boundary")
-                    else:
-                        kept.append(pr)
-                problems = kept
             if problems:
                 fail = "fields_valid: %s %s %s -> %r: %s" % (
                     M.fmt_kw(kw), op, dkw, n.f, "; ".join(problems))
